@@ -582,3 +582,46 @@ func vpH_C01_AcctReply_Decode() {
 	vpSameStr(string(a.Data), dat, n, "C01.AcctReplyDec.data")
 	vpReach("C01.AcctReplyDec.end")
 }
+
+// ---------------------------------------------------------------- 16-bit length fields >= 256
+
+// A two-octet length must be read high octet first also when the high octet is not zero:
+// concretised lengths on both sides of 256 (content free), decode direction.
+func vpH_C01_Len16_Decode__8(c int) {
+	l := []int{255, 256, 300, 511}[c%4]
+	msg := vpStrN(l)
+	if c/4 == 0 {
+		b := []byte{2, 0, byte(l >> 8), byte(l), 0, 0} // authentication REPLY, server_msg of l bytes
+		b = append(b, msg...)
+		var a AuthenReply
+		err := a.UnmarshalBinary(b)
+		vpAssert(err == nil, "C01.Len16.AuthenReply.accepts")
+		vpAssert(len(a.ServerMsg) == l, "C01.Len16.AuthenReply.server_msg_len")
+		vpAssert(len(a.Data) == 0, "C01.Len16.AuthenReply.data_len")
+	} else {
+		vpAssume(vpIsASCII(msg))
+		b := []byte{0, 0, byte(l >> 8), byte(l), 1} // accounting REPLY, data of l bytes
+		b = append(b, msg...)
+		var a AcctReply
+		err := a.UnmarshalBinary(b)
+		vpAssert(err == nil, "C01.Len16.AcctReply.accepts")
+		vpAssert(len(a.Data) == l, "C01.Len16.AcctReply.data_len")
+		vpAssert(len(a.ServerMsg) == 0, "C01.Len16.AcctReply.server_msg_len")
+	}
+	vpReach("C01.Len16.end")
+}
+
+// the same in the encode direction
+func vpH_C01_Len16_Encode__4(c int) {
+	l := []int{255, 256, 300, 511}[c]
+	msg := vpStrN(l)
+	a := AuthenReply{Status: AuthenStatusFail, ServerMsg: AuthenServerMsg(msg)}
+	out, err := a.MarshalBinary()
+	vpAssert(err == nil, "C01.Len16.enc.accepts")
+	if err != nil {
+		return
+	}
+	vpAssert(len(out) == 6+l, "C01.Len16.enc.len")
+	vpAssert(out[2] == byte(l>>8) && out[3] == byte(l), "C01.Len16.enc.big-endian")
+	vpReach("C01.Len16.enc.end")
+}
